@@ -21,10 +21,11 @@ TECHNIQUE = 'abstract interpretation of decl.c with scripted token cursor -> per
 # ------------------------------------------------------------------ declaration alphabet
 
 class D:
-    __slots__ = ('kind', 'scope', 'sc', 'inline', 'init', 'asm', 'ty')
-    def __init__(self, kind, scope, sc, inline=False, init=False, asm=False, ty=('int', 0)):
+    __slots__ = ('kind', 'scope', 'sc', 'inline', 'init', 'asm', 'ty', 'nofs')
+    def __init__(self, kind, scope, sc, inline=False, init=False, asm=False, ty=('int', 0), nofs=False):
         self.kind, self.scope, self.sc, self.inline, self.init, self.asm = kind, scope, frozenset(sc), inline, init, asm
         self.ty = ty      # (type name, qualifiers) of an object declaration
+        self.nofs = nofs  # function type that comes from a typedef name: the declarator has no parameter list of its own
     def __repr__(self):
         s = ' '.join(sorted(self.sc)) + (' inline' if self.inline else '')
         body = (' {...}' if self.kind == 'func' else ' = 1') if self.init else ''
@@ -204,7 +205,7 @@ def decl_models(prog, dw_holder):
         it.assign(name.obj, name.path, dw.name)
         if d.kind == 'func':
             fsobj = Obj('funcscope', 'heap'); fsobj.f[('parent',)] = s
-            it.assign(funcscope.obj, funcscope.path, Ptr(fsobj, ()))
+            it.assign(funcscope.obj, funcscope.path, None if d.nofs else Ptr(fsobj, ()))
             return StructVal({('type',): dw.functype, ('qual',): 0, ('expr',): None})
         it.assign(funcscope.obj, funcscope.path, None)
         return StructVal({('type',): dw.w.t(d.ty[0]), ('qual',): d.ty[1], ('expr',): None})
@@ -307,7 +308,7 @@ def run_history(prog, models, hist, decl_fn, flush_fn):
                 it.call(decl_fn, [s, f])
                 res = 'ok'
             except Terminal as t:
-                res = 'diag:' + str(t.detail)
+                res = ('diag:' if t.what == 'error' else 'CRASH(%s):' % t.what) + str(t.detail)
             evs = it.events[n0:]
             bound = it.user['scopes'].get((s.obj.id, 'x'))
             steps.append((res, [e for e in evs if e[0] in ('emitdata', 'emitfunc', 'funcinit')], snapshot(it, bound) if bound is not None and res == 'ok' else None))
@@ -614,6 +615,27 @@ def rule_redecl_types(chk, prog, tier):
     r.exhaustive = True
 
 
+def rule_typedef_function(chk, prog, tier):
+    r = chk.rule('C09.g', 'a function may be declared, but not defined, through a typedef name of function type: `typedef int F(void); F f;` declares f, `F f { ... }` is diagnosed (and never trips an internal assertion)', floor=4,
+                 oracle='C11 6.9.1p2')
+    models = decl_models(prog, None)
+    decl_fn = prog.require_func('decl', 'decl.c'); flush_fn = prog.require_func('emittentativedefns', 'decl.c')
+    for sc in ((), ('static',), ('extern',)):
+        for body in (False, True):
+            hist = [D('func', 'file', sc, init=body, nofs=True)]
+            try:
+                steps, final, ik = run_history(prog, models, hist, decl_fn, flush_fn)
+                outcome = steps[0][0]
+            except AnalysisBroken as x:
+                outcome = 'broken: %s' % str(x)[-160:]
+            key = 'typedef-function:%s F f%s' % (' '.join(sc) or '-', ' {...}' if body else ';')
+            if body:
+                r.instance(outcome.startswith('diag'), key, 'decl.c:decl', 'must be diagnosed; got %s' % outcome)
+            else:
+                r.instance(outcome == 'ok', key, 'decl.c:decl', 'valid declaration; got %s' % outcome)
+    r.exhaustive = True
+
+
 def run(chk, tier):
     prog = facts.programs()['cproc-qbe']
     chk.guard('C09.b', lambda: rule_histories(chk, prog, tier))
@@ -621,3 +643,4 @@ def run(chk, tier):
     chk.guard('C09.d', lambda: rule_flush(chk, prog, tier))
     chk.guard('C09.e', lambda: rule_flush_all(chk, prog, tier))
     chk.guard('C09.f', lambda: rule_redecl_types(chk, prog, tier))
+    chk.guard('C09.g', lambda: rule_typedef_function(chk, prog, tier))
